@@ -232,8 +232,10 @@ def execute(plan):
                 v.append(V('handover', 'static generator %s %r was out of service in the power flow and is in service after dynamic '
                            'initialisation' % (n, ss.models[n].idx.v[int(on[0])]), what='static_gen_switched_on'))
         static_left = any(np.any(np.asarray(m_.u.v) != 0) for m_ in ss.StaticGen.models.values() if m_.n)
+        cat0 = next((c_ for c_ in catalogue()['cases'] if c_['case'] == plan['case']), None)
+        stock_inits = cat0 is not None and cat0.get('test_ok') is True        # e.g. ieee14_zip does not initialise as shipped
         if plan.get('offline') and off_info.get('unit') and ok is False and \
-                (len(ss.Bus.nosw_island) + len(ss.Bus.msw_island) > 0 or static_left):
+                (len(ss.Bus.nosw_island) + len(ss.Bus.msw_island) > 0 or static_left or not stock_inits):
             # the removal left an island without (or with two) slack, or a static generator without a machine picks up the
             # difference in the power flow but keeps its p0 in the dynamics (kundur_islands): no consistent data any more
             probes['precondition_unmet'] = probes.get('precondition_unmet', 0) + 1
